@@ -56,6 +56,7 @@ class Outcome:
         self.attempts = 0
         self.san_reports = {"attributed": 0, "unattributed": 0}
         self.extra_lines = []  # other @@ lines (e.g. @@LOG for offline checkers)
+        self.first_timeout = None  # description of a first attempt that timed out (the case was re-run once)
 
 
 def san_env(flavour, logbase):
@@ -167,7 +168,10 @@ def run_one(hdirs, case, attribute_re, idx, prop):
         out.stderr = se.decode(errors="replace")
         if timed_out:
             if attempt == 1:
-                continue  # re-run once before reporting a hang
+                # re-run once before reporting a hang; the first time-out is kept visible (printed and counted in the evidence)
+                out.first_timeout = "%s %s (%ds); stdout tail: %s" % (case.exe, " ".join(case.args), case.timeout, out.stdout[-300:].replace("\n", " | "))
+                sys.stderr.write("[%s] NOTE first attempt timed out, re-running once: %s\n" % (prop, out.first_timeout))
+                continue
             out.violations.append(("%s:hang:%s" % (prop, case.cls),
                                    "no result within %ds in two attempts; stdout tail: %s" % (
                                        case.timeout, out.stdout[-600:])))
@@ -361,6 +365,7 @@ def finish(prop, tier, seed, t0, outcomes, rule, required_bits=(), extra_cov=Non
         "inconclusive": inconcl[:20],
         "known_findings_printed": sorted(set(k for k, _ in printed_known)),
         "violation_keys": [k for k, _, _ in new],
+        "first_attempt_timeouts": [o.first_timeout for o in outcomes if o is not None and o.first_timeout][:10],
     }
     if extra_cov:
         cov.update(extra_cov)
